@@ -34,7 +34,9 @@ TSG = [E.T0 + 5, E.T0 + 10, E.T0 + 15, E.T0 + 20]
 
 def mk(i, a, kind, d, ts, extra=False):
     tags = []
-    if extra:
+    if extra == 2:
+        tags.append(["p", ["x"]])  # a tag value some backends cannot index: the event may be refused late
+    elif extra:
         tags.append(["t", "x"])
     if d is not None:
         tags.append(list(d))
@@ -47,7 +49,7 @@ def st_history(draw, maxn):
     out = []
     for i in range(n):
         out.append(mk(i, draw(st.integers(0, 1)), draw(st.sampled_from(KINDS)), draw(st.sampled_from(DTAGS)),
-                      draw(st.sampled_from(TSG)), draw(st.booleans())))
+                      draw(st.sampled_from(TSG)), draw(st.sampled_from([0, 0, 1, 1, 1, 2]))))
         if draw(st.integers(0, 9)) == 0 and out:
             out.append(dict(draw(st.sampled_from(out))))  # duplicate submission
     return out
